@@ -1,7 +1,8 @@
 #!/bin/bash
 # Regression of the machinery itself (not a registered check): every seeded change must be reported (exit 1) by its property's
 # quick check, every behaviour-preserving refactoring must leave the relevant checks at exit 0.  Applies patches to /repo and undoes them.
-cd /verif
+cd "$(dirname "$0")/.."
+REPO=${VX_REPO:-/repo}
 declare -A REF=( [1]="C04 C05 C08" [2]="C06" [3]="C01 C18 C11" [4]="C03 C17" [5]="C03" [6]="C10" [7]="C14" [8]="C13" )
 bad=0
 for d in seeded/C*; do
@@ -12,7 +13,7 @@ for d in seeded/C*; do
 done
 for k in "${!REF[@]}"; do
   for c in ${REF[$k]}; do
-    BAK=$(mktemp -d /verif/work/vx_ev_XXXX); cp -r evidence $BAK/; git -C /repo apply seeded/refactors/r$k.diff; ./check $c >/dev/null 2>&1; rc=$?; git -C /repo checkout -- .; rm -rf evidence; cp -r $BAK/evidence evidence; rm -rf $BAK
+    BAK=$(mktemp -d work/vx_ev_XXXX); cp -r evidence $BAK/; git -C $REPO apply $PWD/seeded/refactors/r$k.diff; ./check $c >/dev/null 2>&1; rc=$?; git -C $REPO checkout -- .; rm -rf evidence; cp -r $BAK/evidence evidence; rm -rf $BAK
     if [ $rc = 0 ]; then echo "ok   refactor r$k $c exit 0"; else echo "ALARM refactor r$k $c exit $rc"; bad=1; fi
   done
 done
